@@ -717,4 +717,336 @@ Proof.
   rewrite Hdata. cbn [bind]. rewrite Hloop. cbn [bind]. reflexivity.
 Qed.
 
+
+(* ---------- canonical (assembled) trees ---------- *)
+
+Definition is_sec (n : node) : Prop := match n with NSec _ _ _ => True | _ => False end.
+
+Definition asm_node (r : outcome (node * ast)) : option node :=
+  match r with Ok (n, _) => Some n | _ => None end.
+
+(* the node Assemble makes of a section does not depend on the visitor state *)
+Lemma sec_asm_node_st h buf kids st st' :
+  asm_node (secasm h buf kids st) = asm_node (secasm h buf kids st').
+Proof.
+  destruct st as [p f], st' as [p' f']. unfold sec_asm.
+  destruct kids as [|k r].
+  - match goal with |- context [bind ?e _] => destruct e as [[b|]| | |] end; cbn [bind asm_node]; reflexivity.
+  - match goal with |- context [bind ?e _] => destruct e as [b| | |] end; cbn [bind asm_node]; reflexivity.
+Qed.
+
+(* a leaf section that Assemble leaves as it is: any section that is not regenerated (everything
+   but UI, version and dependency sections), and those three when their bytes are already what
+   Assemble regenerates from the decoded fields *)
+Definition leaf_stable (h : sechdr) (buf : bytes) : Prop :=
+  asm_node (secasm h buf [] (255, false)) = Some (NSec h buf []).
+
+Lemma leaf_stable_asm h buf st : leaf_stable h buf ->
+  exists st', secasm h buf [] st = Ok (NSec h buf [], st').
+Proof.
+  unfold leaf_stable. rewrite (sec_asm_node_st h buf [] (255, false) st).
+  destruct (secasm h buf [] st) as [[n st']| | |]; cbn [asm_node]; try discriminate.
+  intros [= ->]. eauto.
+Qed.
+
+Fixpoint height (n : node) : nat :=
+  match n with
+  | NSec _ _ kids | NFile _ _ kids | NVol _ _ kids => S (fold_right (fun k m => Nat.max (height k) m) 0%nat kids)
+  | NPad _ _ => 1%nat
+  end.
+
+Lemma height_kids k kids : In k kids ->
+  (height k <= fold_right (fun k m => Nat.max (height k) m) 0%nat kids)%nat.
+Proof.
+  induction kids as [|x r IH]; intros H; [destruct H|].
+  cbn [fold_right]. destruct H as [->|H]; [lia|]. specialize (IH H). lia.
+Qed.
+
+(* the file header Assemble regenerates for section data [data] *)
+Definition file_regen (h : filehdr) (data : bytes) : filehdr * bytes :=
+  let '(ext, attr) := set_size (f_attr h) (24 + zlen data) true in
+  checksum_and_assemble h ext attr data.
+
+Definition bad_rsec : Z -> bytes -> Z -> outcome (node * Z) := fun _ _ _ => Fuel.
+
+(* a file without sections: its own bytes parse (without recursion) to this very node *)
+Definition file_leaf_ok (pol : Z) (h : filehdr) (buf : bytes) : Prop :=
+  fbody bad_rsec pol buf = Ok (Some (NFile h buf []), pol).
+
+(* [canon pol n]: n is in the form Assemble writes — leaves that are stable, compressed sections
+   whose buffer is GenSecHeader applied to the encoding of the children, files whose buffer is
+   the regenerated header followed by the joined sections. *)
+Inductive canon (pol : Z) : node -> Prop :=
+| canon_leaf h buf :
+    leaf_ok pol h buf -> leaf_stable h buf -> canon pol (NSec h buf [])
+| canon_comp h buf kids g c :
+    kids <> [] -> Forall (canon pol) kids -> Forall is_sec kids ->
+    s_type h = 2 -> s_gd h = Some g -> zlen (gd_guid g) = 16 -> 0 <= gd_attrs g < 65536 ->
+    Z.land (gd_attrs g) 1 <> 0 -> codec_kind (gd_guid g) <> 0 ->
+    gd_kind g = codec_kind (gd_guid g) ->
+    s_name h = [] -> s_build h = 0 -> s_version h = [] -> s_depex h = None ->
+    enc (codec_kind (gd_guid g)) (join4 [] (map node_buf kids)) = Some c ->
+    zlen c < 4294967000 ->
+    gen_sec_header h c = (h, buf) ->
+    canon pol (NSec h buf kids)
+| canon_file_leaf h buf :
+    file_leaf_ok pol h buf -> f_nvar h = None -> canon pol (NFile h buf [])
+| canon_file h buf kids :
+    kids <> [] -> Forall (canon pol) kids -> Forall is_sec kids ->
+    f_nvar h = None -> supported_file (f_type h) = true -> zlen (f_guid h) = 16 ->
+    zlen (join4 [] (map node_buf kids)) < 4294967000 ->
+    f_dataoff h = (if attr_large (f_attr h) then 32 else 24) ->
+    file_regen h (join4 [] (map node_buf kids)) = (h, buf) ->
+    canon pol (NFile h buf kids).
+
+(* ---------- stage 1: sections (any nesting of compressed sections over leaf sections) ---------- *)
+
+Lemma psec_S d pol buf i : psec (S d) pol buf i = sbody (psec d) (pfv d) pol buf i.
+Proof. reflexivity. Qed.
+
+Lemma pfile_S d pol buf : pfile (S d) pol buf = fbody (psec d) pol buf.
+Proof. reflexivity. Qed.
+
+Definition sec_reparses (pol : Z) (n : node) : Prop :=
+  forall d, (height n <= d)%nat -> reparses_sec (psec d) pol n.
+
+Lemma canon_sec_reparses pol n : canon pol n -> is_sec n -> sec_reparses pol n.
+Proof.
+  induction n as [h buf kids IH| | |] using node_ind'; intros Hc Hs; try (destruct Hs).
+  inversion Hc; subst.
+  - (* leaf *)
+    intros d Hd. destruct d as [|d]; [simpl in Hd; lia|].
+    match goal with H : leaf_ok _ _ _ |- _ => pose proof (leaf_reparse pol h buf H) as Hl; destruct H as [Hp _] end.
+    assert (H4 : 4 <= zlen buf).
+    { rewrite section_body_eq in Hp. destruct (zlen buf <? 4) eqn:E; [discriminate|]. lia. }
+    split; [cbn [node_buf]; lia|]. intros rest i. cbn [node_buf].
+    exists (NSec (set_order h i) buf []). rewrite psec_S, Hl. split; [reflexivity|]. split; [reflexivity|].
+    (* s_ext h = zlen buf *)
+    cbn [sec_ext set_order s_ext].
+    rewrite section_body_eq in Hp. destruct (zlen buf <? 4); [discriminate|].
+    destruct (sec_head buf) as [[hl ext]| | |]; cbn [bind] in Hp; try discriminate.
+    destruct (zlen buf <? ext) eqn:Ee; [discriminate|].
+    pose proof (sec_tail_type _ _ _ _ _ _ _ _ _ _ _ _ _ Hp) as (_ & _ & Hext & _ & Hb).
+    rewrite Hext. apply sub0_whole; [lia|lia|symmetry; exact Hb].
+  - (* compressed *)
+    intros d Hd. destruct d as [|d]; [simpl in Hd; lia|].
+    assert (Hkids : Forall (reparses_sec (psec d) pol) kids).
+    { rewrite Forall_forall in *. intros k Hin.
+      match goal with H : forall x, In x kids -> canon pol x |- _ => pose proof (H k Hin) as Hck end.
+      match goal with H : forall x, In x kids -> is_sec x |- _ => pose proof (H k Hin) as Hsk end.
+      apply (IH k Hin Hck Hsk). cbn [height] in Hd. pose proof (height_kids k kids Hin). lia. }
+    match goal with Hg : gen_sec_header h ?c = (h, buf), He : enc _ _ = Some ?c |- _ =>
+      pose proof (fun rest i => sbody_comp (psec d) (pfv d) pol h h g c buf kids rest i
+        ltac:(assumption) ltac:(assumption) ltac:(assumption) ltac:(assumption) ltac:(assumption)
+        ltac:(assumption) He ltac:(assumption) Hg Hkids) as Hsb end.
+    destruct (Hsb [] 0) as (_ & _ & _ & _ & Hge4 & _).
+    split; [cbn [node_buf]; lia|]. intros rest i. cbn [node_buf].
+    destruct (Hsb rest i) as (kids2 & Hparse & Hstrip & Hext & _ & Hgd & _).
+    eexists. rewrite psec_S. split; [exact Hparse|]. split; [|cbn [sec_ext s_ext]; exact Hext].
+    cbn [strip]. rewrite Hstrip. f_equal.
+    unfold set_order. cbn [s_size3 s_type s_ext s_hlen s_gd s_name s_build s_version s_depex].
+    match goal with E1 : s_type h = 2, E2 : s_name h = [], E3 : s_build h = 0, E4 : s_version h = [],
+      E5 : s_depex h = None, E6 : gd_kind g = _ |- _ => rewrite E1, E2, E3, E4, E5, Hgd, E6 end.
+    reflexivity.
+Qed.
+
+
+(* ---------- stage 2: files ---------- *)
+
+Lemma attr_large_set a : attr_large (set_large a true) = true.
+Proof.
+  unfold attr_large, set_large. rewrite Z.land_lor_distr_l. change (Z.land 1 1) with 1.
+  destruct (Z.lor (Z.land a 1) 1 =? 0) eqn:E; [|reflexivity].
+  apply Z.eqb_eq in E. apply Z.lor_eq_0_iff in E. destruct E; discriminate.
+Qed.
+
+Lemma attr_large_clear a : attr_large (set_large a false) = false.
+Proof.
+  unfold attr_large, set_large. rewrite <- Z.land_assoc. change (Z.land 254 1) with 0.
+  rewrite Z.land_0_r. reflexivity.
+Qed.
+
+Lemma set_large_idem a b : set_large (set_large a b) b = set_large a b.
+Proof.
+  unfold set_large. destruct b.
+  - rewrite <- Z.lor_assoc. reflexivity.
+  - rewrite <- Z.land_assoc. reflexivity.
+Qed.
+
+Lemma sum8_app a b : sum8 (a ++ b) = (sum8 a + sum8 b) mod 256.
+Proof.
+  unfold sum8. assert (E : sum_list (a ++ b) = sum_list a + sum_list b).
+  { induction a as [|x a IH]; simpl; [reflexivity|]. rewrite IH. lia. }
+  rewrite E. apply Z.add_mod. lia.
+Qed.
+
+(* what SetSize + ChecksumAndAssemble produce for section data [data] *)
+Lemma file_regen_shape h data : zlen (f_guid h) = 16 -> zlen data < 4294967000 ->
+  exists hdr ckh ckf attr size3 hl,
+    (hl = 24 \/ hl = 32) /\ zlen hdr = hl /\
+    file_regen h data =
+      (mkFile (f_guid h) ckh ckf (f_type h) attr size3 (f_state h) (hl + zlen data) (f_dataoff h) (f_nvar h),
+       hdr ++ data) /\
+    attr_large attr = (hl =? 32) /\ attr = set_large (f_attr h) (hl =? 32) /\
+    (size3 =? 16777215) = (hl =? 32) /\
+    (16777215 <? hl + zlen data) = (hl =? 32) /\
+    (forall X, sub 0 16 (hdr ++ X) = f_guid h /\ rd 16 1 (hdr ++ X) = ckh /\ rd 17 1 (hdr ++ X) = ckf /\
+               rd 18 1 (hdr ++ X) = f_type h /\ rd 19 1 (hdr ++ X) = attr /\ rd 20 3 (hdr ++ X) = size3 /\
+               rd 23 1 (hdr ++ X) = f_state h /\ (hl = 32 -> rd 24 8 (hdr ++ X) = hl + zlen data)) /\
+    (hl = 24 -> size3 = hl + zlen data).
+Proof.
+  intros Hg Hd. pose proof (zlen_nonneg data) as Hn.
+  unfold file_regen, set_size, checksum_and_assemble.
+  destruct (16777215 <=? 24 + zlen data) eqn:Ebig.
+  - (* large *)
+    rewrite attr_large_set.
+    set (ext := 24 + zlen data + 8). set (attr := set_large (f_attr h) true).
+    assert (Hw : write3 ext = 16777215) by (unfold write3, ext; replace (16777215 <=? 24 + zlen data + 8) with true by lia; reflexivity).
+    rewrite Hw.
+    match goal with |- context [mkFile _ ?a ?b _ _ _ _ _ _ _] => set (ckh := a); set (ckf := b) end.
+    exists (file_header_bytes (f_guid h) ckh ckf (f_type h) attr 16777215 (f_state h) ext true), ckh, ckf, attr, 16777215, 32.
+    assert (Hl : zlen (file_header_bytes (f_guid h) ckh ckf (f_type h) attr 16777215 (f_state h) ext true) = 32).
+    { unfold file_header_bytes. rewrite !zlen_app, Hg, le8. reflexivity. }
+    split; [auto|]. split; [exact Hl|].
+    split; [unfold ext; f_equal; f_equal; lia|].
+    split; [apply attr_large_set|]. split; [reflexivity|]. split; [reflexivity|]. split; [lia|].
+    split; [|intros; lia].
+    intros X. unfold file_header_bytes.
+    set (g := f_guid h) in *.
+    repeat split.
+    + rewrite <- !app_assoc. apply sub_app_here. exact Hg.
+    + rewrite <- !app_assoc. rewrite <- Hg. cbn [app]. apply rd1_at.
+    + replace ((g ++ [ckh; ckf; f_type h; attr] ++ le_enc 3 16777215 ++ [f_state h] ++ le_enc 8 ext) ++ X)
+        with ((g ++ [ckh]) ++ ckf :: ([f_type h; attr] ++ le_enc 3 16777215 ++ [f_state h] ++ le_enc 8 ext) ++ X)
+        by (rewrite <- !app_assoc; reflexivity).
+      replace 17 with (zlen (g ++ [ckh])) by (rewrite zlen_app, Hg; reflexivity). apply rd1_at.
+    + replace ((g ++ [ckh; ckf; f_type h; attr] ++ le_enc 3 16777215 ++ [f_state h] ++ le_enc 8 ext) ++ X)
+        with ((g ++ [ckh; ckf]) ++ f_type h :: ([attr] ++ le_enc 3 16777215 ++ [f_state h] ++ le_enc 8 ext) ++ X)
+        by (rewrite <- !app_assoc; reflexivity).
+      replace 18 with (zlen (g ++ [ckh; ckf])) by (rewrite zlen_app, Hg; reflexivity). apply rd1_at.
+    + replace ((g ++ [ckh; ckf; f_type h; attr] ++ le_enc 3 16777215 ++ [f_state h] ++ le_enc 8 ext) ++ X)
+        with ((g ++ [ckh; ckf; f_type h]) ++ attr :: (le_enc 3 16777215 ++ [f_state h] ++ le_enc 8 ext) ++ X)
+        by (rewrite <- !app_assoc; reflexivity).
+      replace 19 with (zlen (g ++ [ckh; ckf; f_type h])) by (rewrite zlen_app, Hg; reflexivity). apply rd1_at.
+    + replace ((g ++ [ckh; ckf; f_type h; attr] ++ le_enc 3 16777215 ++ [f_state h] ++ le_enc 8 ext) ++ X)
+        with ((g ++ [ckh; ckf; f_type h; attr]) ++ le_enc 3 16777215 ++ ([f_state h] ++ le_enc 8 ext) ++ X)
+        by (rewrite <- !app_assoc; reflexivity).
+      replace 20 with (zlen (g ++ [ckh; ckf; f_type h; attr])) by (rewrite zlen_app, Hg; reflexivity).
+      rewrite rd_at by reflexivity. reflexivity.
+    + replace ((g ++ [ckh; ckf; f_type h; attr] ++ le_enc 3 16777215 ++ [f_state h] ++ le_enc 8 ext) ++ X)
+        with ((g ++ [ckh; ckf; f_type h; attr] ++ le_enc 3 16777215) ++ f_state h :: le_enc 8 ext ++ X)
+        by (rewrite <- !app_assoc; reflexivity).
+      replace 23 with (zlen (g ++ [ckh; ckf; f_type h; attr] ++ le_enc 3 16777215)) by (rewrite !zlen_app, Hg; reflexivity).
+      apply rd1_at.
+    + intros _.
+      replace ((g ++ [ckh; ckf; f_type h; attr] ++ le_enc 3 16777215 ++ [f_state h] ++ le_enc 8 ext) ++ X)
+        with ((g ++ [ckh; ckf; f_type h; attr] ++ le_enc 3 16777215 ++ [f_state h]) ++ le_enc 8 ext ++ X)
+        by (rewrite <- !app_assoc; reflexivity).
+      replace 24 with (zlen (g ++ [ckh; ckf; f_type h; attr] ++ le_enc 3 16777215 ++ [f_state h])) at 1
+        by (rewrite !zlen_app, Hg; reflexivity).
+      rewrite rd_at by apply le8. unfold ext. rewrite le_dec_enc; [lia|].
+      change (256 ^ Z.of_nat 8) with 18446744073709551616. lia.
+  - (* small *)
+    rewrite attr_large_clear.
+    set (ext := 24 + zlen data). set (attr := set_large (f_attr h) false).
+    assert (Hw : write3 ext = ext) by (unfold write3, ext; replace (16777215 <=? 24 + zlen data) with false by lia; reflexivity).
+    rewrite Hw.
+    match goal with |- context [mkFile _ ?a ?b _ _ _ _ _ _ _] => set (ckh := a); set (ckf := b) end.
+    exists (file_header_bytes (f_guid h) ckh ckf (f_type h) attr ext (f_state h) ext false), ckh, ckf, attr, ext, 24.
+    assert (Hl : zlen (file_header_bytes (f_guid h) ckh ckf (f_type h) attr ext (f_state h) ext false) = 24).
+    { unfold file_header_bytes. rewrite !zlen_app, Hg. reflexivity. }
+    split; [auto|]. split; [exact Hl|].
+    split; [reflexivity|].
+    split; [apply attr_large_clear|]. split; [reflexivity|].
+    split; [unfold ext; change (24 =? 32) with false; lia|]. split; [change (24 =? 32) with false; lia|].
+    split; [|intros; reflexivity].
+    intros X. unfold file_header_bytes. rewrite app_nil_r.
+    set (g := f_guid h) in *.
+    repeat split.
+    + rewrite <- !app_assoc. apply sub_app_here. exact Hg.
+    + rewrite <- !app_assoc. rewrite <- Hg. cbn [app]. apply rd1_at.
+    + replace ((g ++ [ckh; ckf; f_type h; attr] ++ le_enc 3 ext ++ [f_state h]) ++ X)
+        with ((g ++ [ckh]) ++ ckf :: ([f_type h; attr] ++ le_enc 3 ext ++ [f_state h]) ++ X)
+        by (rewrite <- !app_assoc; reflexivity).
+      replace 17 with (zlen (g ++ [ckh])) by (rewrite zlen_app, Hg; reflexivity). apply rd1_at.
+    + replace ((g ++ [ckh; ckf; f_type h; attr] ++ le_enc 3 ext ++ [f_state h]) ++ X)
+        with ((g ++ [ckh; ckf]) ++ f_type h :: ([attr] ++ le_enc 3 ext ++ [f_state h]) ++ X)
+        by (rewrite <- !app_assoc; reflexivity).
+      replace 18 with (zlen (g ++ [ckh; ckf])) by (rewrite zlen_app, Hg; reflexivity). apply rd1_at.
+    + replace ((g ++ [ckh; ckf; f_type h; attr] ++ le_enc 3 ext ++ [f_state h]) ++ X)
+        with ((g ++ [ckh; ckf; f_type h]) ++ attr :: (le_enc 3 ext ++ [f_state h]) ++ X)
+        by (rewrite <- !app_assoc; reflexivity).
+      replace 19 with (zlen (g ++ [ckh; ckf; f_type h])) by (rewrite zlen_app, Hg; reflexivity). apply rd1_at.
+    + replace ((g ++ [ckh; ckf; f_type h; attr] ++ le_enc 3 ext ++ [f_state h]) ++ X)
+        with ((g ++ [ckh; ckf; f_type h; attr]) ++ le_enc 3 ext ++ [f_state h] ++ X)
+        by (rewrite <- !app_assoc; reflexivity).
+      replace 20 with (zlen (g ++ [ckh; ckf; f_type h; attr])) by (rewrite zlen_app, Hg; reflexivity).
+      rewrite rd_at by reflexivity. apply le_dec_enc. change (256 ^ Z.of_nat 3) with 16777216. unfold ext. lia.
+    + replace ((g ++ [ckh; ckf; f_type h; attr] ++ le_enc 3 ext ++ [f_state h]) ++ X)
+        with ((g ++ [ckh; ckf; f_type h; attr] ++ le_enc 3 ext) ++ f_state h :: X)
+        by (rewrite <- !app_assoc; reflexivity).
+      replace 23 with (zlen (g ++ [ckh; ckf; f_type h; attr] ++ le_enc 3 ext)) by (rewrite !zlen_app, Hg; reflexivity).
+      apply rd1_at.
+    + intros; lia.
+Qed.
+
+
+Lemma supported_not_1 t : supported_file t = true -> (t =? 1) = false.
+Proof. intros H. destruct (t =? 1) eqn:E; [|reflexivity]. apply Z.eqb_eq in E. subst t. discriminate. Qed.
+
+Lemma fbody_file rs pol h buf kids rest :
+  f_nvar h = None -> supported_file (f_type h) = true -> zlen (f_guid h) = 16 ->
+  zlen (join4 [] (map node_buf kids)) < 4294967000 ->
+  f_dataoff h = (if attr_large (f_attr h) then 32 else 24) ->
+  file_regen h (join4 [] (map node_buf kids)) = (h, buf) ->
+  Forall (reparses_sec rs pol) kids ->
+  exists kids2,
+    fbody rs pol (buf ++ rest) = Ok (Some (NFile h buf kids2), pol) /\
+    map strip kids2 = map strip kids /\ f_ext h = zlen buf /\ 24 <= zlen buf.
+Proof.
+  intros Hnv Hsup Hg Hd Hdo Hreg Hkids.
+  set (data := join4 [] (map node_buf kids)) in *.
+  destruct (file_regen_shape h data Hg Hd) as
+    (hdr & ckh & ckf & attr & size3 & hl & Hhl & Hlen & Hreg' & Hlarge & Hattr & Hs3 & Hbig & Hrd & Hsz).
+  rewrite Hreg in Hreg'.
+  pose proof (f_equal fst Hreg') as Eh. pose proof (f_equal snd Hreg') as Eb. cbn [fst snd] in Eh, Eb.
+  clear Hreg Hreg'.
+  destruct h as [g0 ckh0 ckf0 t0 a0 s30 st0 e0 do0 nv0].
+  cbn [f_guid f_ckh f_ckf f_type f_attr f_size3 f_state f_ext f_dataoff f_nvar] in *.
+  injection Eh as Eckh Eckf Ea Es3 Ee. subst nv0 ckh0 ckf0 a0 s30 e0.
+  pose proof (zlen_nonneg data) as Hdn. pose proof (zlen_nonneg rest) as Hrn.
+  assert (Hzb : zlen buf = hl + zlen data) by (rewrite Eb, zlen_app; lia).
+  assert (Hn : (length kids < Z.to_nat (hl + zlen data) + 1)%nat).
+  { pose proof (length_le_zlen_join kids) as L.
+    assert (Forall (fun k => 0 < zlen (node_buf k)) kids) as F.
+    { clear - Hkids. induction Hkids as [|k r [Hp _] _ IH]; constructor; assumption. }
+    specialize (L F). fold data in L. lia. }
+  assert (Hm4 : zlen hdr mod 4 = 0) by (rewrite Hlen; destruct Hhl; subst hl; reflexivity).
+  destruct (loop_file rs pol kids hdr _ 0 Hkids Hn Hm4) as (kids2 & Hloop & Hstrip).
+  fold data in Hloop. rewrite Hlen in Hloop. rewrite <- Eb in Hloop.
+  exists kids2. split; [|repeat split; try assumption; try lia].
+  unfold file_body. cbv zeta.
+  replace (zlen (buf ++ rest) <? 24) with false by (rewrite zlen_app; lia).
+  assert (HB : buf ++ rest = hdr ++ data ++ rest) by (rewrite Eb, <- app_assoc; reflexivity).
+  destruct (Hrd (data ++ rest)) as (R0 & R16 & R17 & R18 & R19 & R20 & R23 & R24).
+  rewrite <- HB in R0, R16, R17, R18, R19, R20, R23, R24.
+  rewrite R0, R16, R17, R18, R19, R20, R23. rewrite Hs3.
+  rewrite (supported_not_1 _ Hsup). cbn [andb]. rewrite Hsup. cbn [negb].
+  assert (Hdoff : do0 = hl).
+  { rewrite Hdo, Hlarge. destruct Hhl; subst hl; reflexivity. }
+  destruct Hhl; subst hl.
+  - change (24 =? 32) with false. cbv iota. cbn [bind andb]. rewrite (Hsz eq_refl).
+    replace (zlen (buf ++ rest) <? 24 + zlen data) with false by (rewrite zlen_app; lia).
+    replace (sub 0 (24 + zlen data) (buf ++ rest)) with buf by (symmetry; apply sub_app_here; exact Hzb).
+    cbn [bind]. rewrite Hloop. cbn [bind]. rewrite Hdoff. reflexivity.
+  - change (32 =? 32) with true. cbv iota.
+    replace (zlen (buf ++ rest) <? 32) with false by (rewrite zlen_app; lia).
+    rewrite (R24 eq_refl). cbn [bind andb].
+    replace (32 + zlen data =? U64 - 1) with false by (unfold U64; change (2 ^ 64) with 18446744073709551616; lia).
+    replace (zlen (buf ++ rest) <? 32 + zlen data) with false by (rewrite zlen_app; lia).
+    replace (sub 0 (32 + zlen data) (buf ++ rest)) with buf by (symmetry; apply sub_app_here; exact Hzb).
+    cbn [bind]. rewrite Hloop. cbn [bind]. rewrite Hdoff.
+    assert (Es : size3 = 16777215) by lia. rewrite Es. reflexivity.
+Qed.
+
 End Codec.
